@@ -146,6 +146,9 @@ def replayTwin (j : Json) : R Verdict := do
   if !b then
     let w := s!"C09: the same run in a fresh process differs: {(fieldD j "diffCrossProcess").compress}"
     return { case, kind := "PROPFAIL", props := ["C09"], what := w, tags, size := n, fails := [w] }
+  if (fieldD j "sameGuessOrNot").getBool?.toOption == some false then
+    let w := s!"C11: supplying the spec's own initial value as the guess does not give the same run as supplying none: {(fieldD j "diffGuessOrNot").compress}"
+    return { case, kind := "PROPFAIL", props := ["C11"], what := w, tags, size := n, fails := [w] }
   return { case, kind := "ok", tags, size := n }
 
 end Driver.DirReplay
